@@ -1618,7 +1618,8 @@ def c18_oracle(script, rec):
         if f[0] != "lex":
             continue
         data = unhx(f[1]) or b""
-        want = speclex.tokens(data)
+        files = {unhx(x.split(" ")[2]): (unhx(x.split(" ")[3]) or b"") for x in ops if x.startswith("fs put ")}
+        want = speclex.tokens(data, files) if files else speclex.tokens(data)
         got = [l for l in ch if l.startswith(("K ", "R "))]
         if want and want[-1].startswith("INCLUDE"):
             # no file exists in these runs: the tokens before the directive, then an error located where the
@@ -1649,6 +1650,22 @@ def run_c18(ctx):
         ins = c18_inputs(ctx.rng, 3000 if ctx.tier == "quick" else 40000)
         per = 25
         cases = ["init\n" + "".join("lex %s\n" % hx(t) for t in ins[i:i + per]) for i in range(0, len(ins), per)]
+        # include directives that resolve to files: what follows a directive on its own line is scanned in the middle of a
+        # line (a second directive there is not one), a directive needs the beginning of a line, included files with and
+        # without a final line feed
+        fsl = ["fs put %s %s" % (hx(b"a.cfg"), hx(b"q = 3;\n")), "fs put %s %s" % (hx(b"b.cfg"), hx(b"w = 1;")),
+               "fs put %s %s" % (hx(b"e.cfg"), hx(b"")),
+               "fs put %s %s" % (hx(b"n.cfg"), hx(b"@include \"a.cfg\" @include \"b.cfg\"\nk = 1;\n"))]
+        inc_texts = []
+        for first in (b"a.cfg", b"b.cfg", b"e.cfg", b"n.cfg"):
+            for gap in (b" ", b"", b"\t", b" \t "):
+                for after in (b"@include \"b.cfg\"", b"z = 1;", b"@include \"nosuch.cfg\"", b"# c", b""):
+                    inc_texts.append(b"x = 1;\n@include \"" + first + b"\"" + gap + after + b"\ny = 2;\n")
+        inc_texts += [b"x = 1; @include \"a.cfg\"\n", b"  \t@include  \t\"a.cfg\"\n@include \"b.cfg\"\n@include \"a.cfg\"",
+                      b"/* c */@include \"a.cfg\"\n", b"\n@include \"a.cfg\"@include \"a.cfg\"\n"]
+        cases += ["init\n" + "\n".join(fsl) + "\n" + "".join("lex %s\n" % hx(t) for t in inc_texts[i:i + per])
+                  for i in range(0, len(inc_texts), per)]
+        res.distribution["include_texts"] = len(inc_texts)
         res.distribution["inputs"] = len(ins)
         res.distribution["bytes"] = sum(len(t) for t in ins)
     res.rule = ("token streams of libconfig_yylex (kind, value, line) on lexeme soups joined by every separator incl. none, "
@@ -3086,6 +3103,14 @@ def c02_cases(rng, maxlen, spellings, nrandom):
         if r < 0.4:
             t = gen_text.mutate_tokens(rng, t)
         texts.append(t)
+    # literals whose conversion consults errno, after literals that leave ERANGE behind (an underflowing float is a valid
+    # token; an overflowing one is rejected): every kind of integer literal must still be read, in the same text and in
+    # the next text read by the same thread
+    texts = [b"t = 1e-400;\nm = 0x1F;\nn = 0x10L;\nk = 5;\nbig = 99999999999;\no = 017;\nl = ( 0xFFFFFFFFFFFFFFFFL, -1L, 0xffffffff );",
+             b"x = 1e999;", b"m = 0xFF;\nn = 0xFFFFFFFFFFFFFFFFL;\nk = -5;\nj = 077L;\na = [ 0x0, 0x7fffffff ];",
+             b"d = 4.9e-324;\nh = 0x7fffffff;\nH = 0x7FFFFFFFFFFFFFFFL;\ni = 2147483647;\nI = 9223372036854775807;",
+             b"v = 99999999999999999999;", b"h = 0x10; k = 1; f = 2.5e-310; g = 0x20L;",
+             b"w = 0x10000000000000000L;", b"ok = 0xABCDEFL; also = 12L; tiny = -1e-320; again = 0x1;"] + texts
     # semantic errors at known places
     texts += [b"a = 1;\nb = 2;\n\na = 3;", b"g = { x = 1;\n y = 2;\n x = 3; };", b"a = [ 1, 2,\n 3.0 ];", b"a = [ 1,\n\n\"s\" ];",
               b"a = [ \"s\", \"t\"\n\n, 1 ];", b"a = [ 1, \"s\"\n\n];", b"a = ( 1, \"s\", [ true, 0 ] );", b"a = [ 1, 2L ];", b"a = [ 0x1, 2 ];",
